@@ -253,9 +253,11 @@ class ReactionQueryReader(object):
         return radical, charge, valence
 
     def ReadAtomType(self, tree):
-        assert tree[0][0] == 'Symbols'
+        if tree[0][0] != 'Symbols':
+            raise NotImplementedError("AtomTypeModify: atom prefix not "
+                                      "supported")
         symbol = tree[0][1][0]
-
+        radical, charge, valence = 0, 0, 0
         if len(tree) > 1:
             assert tree[1][0] == 'AtomSuffix'
             radical, charge, valence = self.ReadAtomSuffix(tree[1][1:])
